@@ -20,10 +20,6 @@ import (
 	"verif/c18/tbl"
 	"verif/snap"
 	"verif/vrt"
-
-	"github.com/csgura/fp"
-	"github.com/csgura/fp/clone"
-	"github.com/csgura/fp/lazy"
 )
 
 // ---- value generation ---------------------------------------------------------------------
@@ -36,6 +32,10 @@ type vgen struct {
 	budget int
 	// what was deliberately built
 	aliasPtr, aliasSlice, aliasMap, subSlice, ptrIntoSlice int
+}
+
+func newVgen(r *rand.Rand) *vgen {
+	return &vgen{r: r, ptrs: map[reflect.Type][]reflect.Value{}, slices: map[reflect.Type][]reflect.Value{}, maps: map[reflect.Type][]reflect.Value{}, budget: 120}
 }
 
 var letters = "abcdefghijklmnopqrstuvwxyz0123456789"
@@ -201,56 +201,185 @@ var (
 	probeBroken map[string]bool
 )
 
-// probes: does the storage-allocating combinator share storage in its simplest use?
+func allocates(c string) bool { return c == "Ptr" || c == "Slice" || c == "Seq" || c == "GoMap" }
+
+func containsAlloc(n *tbl.Node) bool {
+	if allocates(n.Comb()) {
+		return true
+	}
+	for _, k := range n.Kids {
+		if containsAlloc(k) {
+			return true
+		}
+	}
+	return false
+}
+
+func treeSize(n *tbl.Node) int {
+	s := 1
+	for _, k := range n.Kids {
+		s += treeSize(k)
+	}
+	return s
+}
+
+// sharesOn reports whether expression e shares storage between original and clone on any of
+// a few fixed pseudo-random values (a panic counts as broken).
+func sharesOn(e *tbl.Expr) (broken bool) {
+	defer func() {
+		if recover() != nil {
+			broken = true
+		}
+	}()
+	for seed := uint64(1); seed <= 12; seed++ {
+		vg := newVgen(rand.New(rand.NewPCG(seed, 18)))
+		orig := reflect.New(e.Typ).Elem()
+		vg.fill(orig)
+		cl := e.Clone(orig)
+		if len(snap.Shared(snap.Reachable(orig), snap.Reachable(cl))) > 0 {
+			return true
+		}
+	}
+	return false
+}
+
+// deepUse: the node has a component that needs a deep copy (its combinator is used "in
+// depth"); otherwise only the node's own allocation matters.
+func deepUse(n *tbl.Node) bool {
+	for _, k := range n.Kids {
+		if containsAlloc(k) {
+			return true
+		}
+	}
+	return false
+}
+
+// probes decides, once per worker and only after a violation was seen, which combinators
+// are broken on their own, bottom-up over the expression table:
+//  1. an allocator (Ptr, Slice, Seq, GoMap) is simple-broken if it shares storage over plain
+//     values (Ptr(int), Slice(string), …);
+//  2. a combinator X is deep-broken if a table expression rooted at X, all of whose
+//     components need a deep copy, shares storage although everything below X in it has
+//     already been found sound (allocators in simple use: step 1; combinators in deep use:
+//     an earlier round of this step; X itself may recur).  A combinator whose probes are all
+//     clean is sound.  Rounds are repeated until nothing changes.
 func probes() map[string]bool {
 	probeOnce.Do(func() {
 		probeBroken = map[string]bool{}
-		try := func(name string, f func() bool) {
-			defer func() {
-				if recover() != nil {
-					probeBroken[name] = true
-				}
-			}()
-			probeBroken[name] = f()
+		byRoot := map[string][]*tbl.Expr{}
+		for _, e := range table {
+			byRoot[e.Tree.Comb()] = append(byRoot[e.Tree.Comb()], e)
 		}
-		try("Ptr", func() bool {
-			x := 5
-			p := &x
-			return clone.Ptr(lazy.Done(clone.Given[int]())).Clone(p) == p
-		})
-		try("Slice", func() bool {
-			s := []int{1, 2}
-			c := clone.Slice(clone.Given[int]()).Clone(s)
-			return len(c) > 0 && &c[0] == &s[0]
-		})
-		try("Seq", func() bool {
-			s := fp.Seq[int]{1, 2}
-			c := clone.Seq(clone.Given[int]()).Clone(s)
-			return len(c) > 0 && &c[0] == &s[0]
-		})
-		try("GoMap", func() bool {
-			m := map[string]int{"a": 1}
-			c := clone.GoMap(clone.Given[string](), clone.Given[int]()).Clone(m)
-			c["zz"] = 1
-			_, leaked := m["zz"]
-			return leaked
-		})
+		for _, es := range byRoot {
+			sort.SliceStable(es, func(i, j int) bool { return treeSize(es[i].Tree) < treeSize(es[j].Tree) })
+		}
+		simpleBroken := map[string]bool{}
+		for _, c := range []string{"Ptr", "Slice", "Seq", "GoMap"} {
+			n := 0
+			for _, e := range byRoot[c] {
+				if deepUse(e.Tree) {
+					continue
+				}
+				if n++; n > 6 {
+					break
+				}
+				if sharesOn(e) {
+					simpleBroken[c] = true
+					break
+				}
+			}
+		}
+		deepOK, deepBroken := map[string]bool{}, map[string]bool{}
+		var sound func(n *tbl.Node, root string) bool
+		sound = func(n *tbl.Node, root string) bool {
+			c := n.Comb()
+			if deepUse(n) {
+				if !deepOK[c] && c != root {
+					return false
+				}
+			}
+			if allocates(c) && simpleBroken[c] {
+				return false
+			}
+			for _, k := range n.Kids {
+				if !sound(k, root) {
+					return false
+				}
+			}
+			return true
+		}
+		order := append([]string{"Ptr", "Slice", "Seq", "GoMap", "Option", "HCons", "Generic"}, combinators[9:]...)
+		for changed := true; changed; {
+			changed = false
+			for _, c := range order {
+				if deepOK[c] || deepBroken[c] || simpleBroken[c] {
+					continue
+				}
+				ran := 0
+				for _, e := range byRoot[c] {
+					all := len(e.Tree.Kids) > 0
+					below := true
+					for ki, k := range e.Tree.Kids {
+						if !(c == "GoMap" && ki == 0) && !(c == "HCons" && k.Comb() == "HNil") {
+							all = all && containsAlloc(k)
+						}
+						below = below && sound(k, c)
+					}
+					if !all || !below {
+						continue
+					}
+					if ran++; ran > 200 {
+						break
+					}
+					if sharesOn(e) {
+						deepBroken[c] = true
+						break
+					}
+				}
+				if ran > 0 {
+					changed = true
+					if !deepBroken[c] {
+						deepOK[c] = true
+					}
+				}
+			}
+		}
+		for c := range simpleBroken {
+			probeBroken[c] = true
+		}
+		for c := range deepBroken {
+			probeBroken[c] = true
+		}
 	})
 	return probeBroken
 }
 
-// blameShared names the combinator responsible for storage shared at the given path of the
-// clone: the combinator that had to allocate it if that one shares storage even in its
-// simplest use, otherwise its parent in the expression (which failed to apply it).
-func blameShared(e *tbl.Expr, path string) string {
-	_, alloc := e.Tree.NodeAt(path)
+// blameShared names the combinator responsible for the shared storage: of all shared pieces
+// the shallowest one in the clone is taken (what lies below shared storage is shared as a
+// consequence); on the path from the root to the node that had to allocate it, the deepest
+// combinator that is broken on its own (see probes) is blamed, else the allocator's parent
+// (which did not apply it), else the allocator.
+func blameShared(e *tbl.Expr, shared []snap.SharedItem) (string, snap.SharedItem) {
+	best := shared[0]
+	for _, s := range shared[1:] {
+		if len(tbl.Tokens(s.PathB)) < len(tbl.Tokens(best.PathB)) {
+			best = s
+		}
+	}
+	_, alloc := e.Tree.NodeAt(best.PathB)
 	if alloc == nil {
-		return e.Tree.Comb()
+		return e.Tree.Comb(), best
 	}
-	if probes()[alloc.Comb()] || alloc.Parent == nil {
-		return alloc.Comb()
+	broken := probes()
+	for n := alloc; n != nil; n = n.Parent {
+		if broken[n.Comb()] {
+			return n.Comb(), best
+		}
 	}
-	return alloc.Parent.Comb()
+	if alloc.Parent != nil {
+		return alloc.Parent.Comb(), best
+	}
+	return alloc.Comb(), best
 }
 
 func blameDiff(e *tbl.Expr, path string) string {
@@ -339,7 +468,7 @@ func runCase(w *vrt.W, i int, loc *local, perBatch int) {
 	r := w.Rand(i)
 	site := "clone." + e.Tree.Comb()
 	w.Begin(i, site)
-	vg := &vgen{r: r, ptrs: map[reflect.Type][]reflect.Value{}, slices: map[reflect.Type][]reflect.Value{}, maps: map[reflect.Type][]reflect.Value{}, budget: 120}
+	vg := newVgen(r)
 	orig := reflect.New(e.Typ).Elem()
 	vg.fill(orig)
 	snapO := snap.Snapshot(orig)
@@ -369,8 +498,9 @@ func runCase(w *vrt.W, i int, loc *local, perBatch int) {
 			for k, s := range shared {
 				ds[k] = s.String()
 			}
-			w.Violation(i, "clone."+blameShared(e, shared[0].PathB)+"/shared-storage",
-				fmt.Sprintf("original (a) and clone (b) share mutable storage: %s\nexpr  %s\nvalue %s", strings.Join(ds, "; "), e.Name, trunc(snapO, 600)), witness())
+			who, first := blameShared(e, shared)
+			w.Violation(i, "clone."+who+"/shared-storage",
+				fmt.Sprintf("original (a) and clone (b) share mutable storage; shallowest: %s\nall: %s\nexpr  %s\nvalue %s", first, strings.Join(ds, "; "), e.Name, trunc(snapO, 600)), witness())
 		}
 		// (3) behavioural: mutate everything reachable from the clone; the original must not
 		// change; then the other way round
